@@ -1,5 +1,6 @@
 import Props.C10
 import Props.Driver
+import DroopProofs.SplitB
 /-!
 # C10 at run level: the count does not depend on the order of the ballot lines (all seven Gregory rule names)
 
@@ -15,8 +16,15 @@ precision, every configuration of wigm, and wigm-prf, wigm-prf-batch, scotland, 
 
 Proof: `DroopProofs/PermB.lean` (the first count and `transferAll` are folds whose effect on the state is a sum of per-ballot
 effects that commute pairwise: `tstate_comm`, `Perm.foldl_eq'`) and `PermBWigm.lean` (every step of the driver commutes with
-`permB π`; `PermBMore.lean` for scotland, cfer, mpls).  Splitting / merging identical ballots through multipliers, the Meek family and QPQ, and the file-level presentation
-(comments, layout, nicknames) are decided by re-running the real code (C10 check) and by the reader theorems of C15.
+`permB π`; `PermBMore.lean` for scotland, cfer, mpls).
+
+Splitting and merging through multipliers (`gregory_split`, same seven names, same generality): replacing the `i`-th line `(m, r)`
+by the two lines `(min m₁ m, r)` and `(m − min m₁ m, r)` gives exactly the state of the original case with that ballot, and its
+entry in every logged view, duplicated; read from right to left (`splitLine_merge`) this is merging two adjacent identical lines.
+Together with reordering this covers merging any two lines with the same ranking.  Proof: `DroopProofs/SplitB.lean` (`XF_split`).
+
+The Meek family and QPQ, and the file-level presentation (comments, layout, nicknames) are decided by re-running the real code
+(C10 check) and by the reader theorems of C15.
 -/
 namespace Droop.C10
 open Droop
@@ -79,6 +87,83 @@ theorem gregory_ballot_order (p : Nat) (c : Case)
     · exact ⟨mplsCount (fixedArith p), fun s0 => by simp only [runRuleSt', hr], fun s0 => mpls_permB (fixedArith p) (fixed_lawful p) hπ s0⟩
   rw [ho, ho]
   exact hperm _
+
+/-! ## splitting one ballot line in two, merging two identical adjacent lines into one -/
+
+/-- the case with its `i`-th ballot line `(m, r)` replaced by the two lines `(min m1 m, r)` and `(m - min m1 m, r)` -/
+def splitLine (i m1 : Nat) (c : Case) : Case :=
+  { c with ballots := c.ballots.take i ++ (match c.ballots.drop i with
+      | (m, r) :: rest => (min m1 m, r) :: (m - min m1 m, r) :: rest
+      | [] => []) }
+
+/-- merging: a case with two adjacent lines carrying the same ranking is the split of the case with the single merged line -/
+theorem splitLine_merge (c : Case) (pre rest : List (Nat × List Nat)) (m1 m2 : Nat) (r : List Nat)
+    (hb : c.ballots = pre ++ (m1 + m2, r) :: rest) :
+    (splitLine pre.length m1 c).ballots = pre ++ (m1, r) :: (m2, r) :: rest := by
+  unfold splitLine
+  simp only [hb, List.take_left', List.drop_left']
+  have h1 : min m1 (m1 + m2) = m1 := by omega
+  have h2 : m1 + m2 - m1 = m2 := by omega
+  rw [h1, h2]
+
+theorem initState_splitLine {α : Type} [CommRing α] [LinearOrder α] [IsStrictOrderedRing α] (A : Arith α)
+    (i m1 : Nat) (c : Case) :
+    initState A (splitLine i m1 c) = xB (splitBallots i m1) (splitViews i) (initState A c) := by
+  unfold initState splitLine xB splitBallots splitOne
+  simp only [List.map_nil, List.map_append]
+  rw [← List.map_take, ← List.map_drop]
+  congr 2
+  cases c.ballots.drop i with
+  | nil => rfl
+  | cons b r => obtain ⟨m, rk⟩ := b; rfl
+
+theorem runRuleSt'_splitLine {α : Type} (A : Arith α) (i m1 : Nat) (c : Case) (s0 : St α) :
+    runRuleSt' A (splitLine i m1 c) s0 = runRuleSt' A c s0 := rfl
+
+/-- **splitting a ballot line through its multiplier changes nothing, all seven Gregory rule names** — the result is the result
+    of the original case with that ballot (and its entry in each logged view) duplicated; candidates, tallies, quota, totals,
+    actions, statuses and winners are the same -/
+theorem gregory_split (p : Nat) (c : Case)
+    (hr : c.rule ∈ ["wigm", "wigm-prf", "wigm-prf-batch", "scotland", "cfer", "cfer-batch", "mpls"]) (i m1 : Nat) :
+    runRuleSt (fixedArith p) (splitLine i m1 c)
+      = (runRuleSt (fixedArith p) c).map (xB (splitBallots i m1) (splitViews i)) := by
+  have hx := XF_split (fixedArith p) (fixed_lawful p) i m1
+  have h1 : runRuleSt (fixedArith p) (splitLine i m1 c)
+      = runRuleSt' (fixedArith p) c (xB (splitBallots i m1) (splitViews i) (initState (fixedArith p) c)) := by
+    unfold runRuleSt
+    rw [runRuleSt'_splitLine, initState_splitLine (fixedArith p)]
+  rw [h1]
+  unfold runRuleSt
+  obtain ⟨count, ho, hperm⟩ : ∃ count : St Int → Option (St Int), (∀ s0, runRuleSt' (fixedArith p) c s0 = count s0)
+      ∧ ∀ s0, count (xB (splitBallots i m1) (splitViews i) s0) = (count s0).map (xB (splitBallots i m1) (splitViews i)) := by
+    simp only [List.mem_cons, List.not_mem_nil, or_false] at hr
+    rcases hr with hr | hr | hr | hr | hr | hr | hr
+    · exact ⟨wigmCount (fixedArith p) { integerQuota := c.intq, batchZero := c.batch == "zero" },
+        fun s0 => by simp only [runRuleSt', hr], fun s0 => wigm_xB (fixedArith p) (fixed_lawful p) hx _ s0⟩
+    · exact ⟨wigmCount (fixedArith p) { prf := true }, fun s0 => by simp only [runRuleSt', hr],
+        fun s0 => wigm_xB (fixedArith p) (fixed_lawful p) hx _ s0⟩
+    · exact ⟨wigmCount (fixedArith p) { prf := true, prfBatch := true }, fun s0 => by simp only [runRuleSt', hr],
+        fun s0 => wigm_xB (fixedArith p) (fixed_lawful p) hx _ s0⟩
+    · exact ⟨scotCount (fixedArith p), fun s0 => by simp only [runRuleSt', hr], fun s0 => scot_xB (fixedArith p) (fixed_lawful p) hx s0⟩
+    · exact ⟨cferCount (fixedArith p) false, fun s0 => by simp only [runRuleSt', hr],
+        fun s0 => cfer_xB (fixedArith p) (fixed_lawful p) hx false s0⟩
+    · exact ⟨cferCount (fixedArith p) true, fun s0 => by simp only [runRuleSt', hr],
+        fun s0 => cfer_xB (fixedArith p) (fixed_lawful p) hx true s0⟩
+    · exact ⟨mplsCount (fixedArith p), fun s0 => by simp only [runRuleSt', hr], fun s0 => mpls_xB (fixedArith p) (fixed_lawful p) hx s0⟩
+  rw [ho, ho]
+  exact hperm _
+
+/-- what the split leaves untouched in a state: everything but the ballot list and the per-ballot views -/
+theorem xB_split_same {α : Type} (i m1 : Nat) (s : St α) :
+    let t := xB (splitBallots i m1) (splitViews i) s
+    t.cands = s.cands ∧ t.quota = s.quota ∧ t.votes = s.votes ∧ t.exhausted = s.exhausted ∧ t.residual = s.residual
+      ∧ t.surplus = s.surplus ∧ t.round = s.round ∧ t.crash = s.crash
+      ∧ t.acts.map (fun a => (a.tag, a.round, a.verb, a.subj, a.snap, a.val)) = s.acts.map (fun a => (a.tag, a.round, a.verb, a.subj, a.snap, a.val)) := by
+  refine ⟨rfl, rfl, rfl, rfl, rfl, rfl, rfl, rfl, ?_⟩
+  simp only [xB, List.map_map]; rfl
+
+/-- non-vacuity: splitting the first line (2 × [1,2]) of the sample into 1 + 1 -/
+example : (splitLine 0 1 Driver.sample).ballots = [(1, [1, 2]), (1, [1, 2]), (1, [2])] := by decide
 
 /-! ## natural permutations exist, and compose -/
 
